@@ -413,6 +413,28 @@ def run(rep: Report, tier: str) -> None:
         rep.exemption("R32.3", k, why)
     rep.analysed = {"mapper_branches": len(dl), "error_writers": len(writers), "execute_sites": nsites, "reachable_functions": len(reach2),
                     "ast_node_classes": nvis, "bare_raise_sites": nraise}
+    # ---- R32.10 typed macro parameters need the storage compatibility version fixed when the session database is OPENED ----
+    rep.rule("R32.10", "the library declares typed macro parameters, so every duckdb.connect(...) of the session database passes storage_compatibility_version in its config (a SET after opening a file database is too late)")
+    typed_macros = []
+    for sqlf in sorted((P.root / "duckdb_transpiler" / "sql").glob("*.sql")):
+        for m_ in re.finditer(r"CREATE\s+(?:OR\s+REPLACE\s+)?MACRO\s+(\w+)\s*\(([^)]*)\)", _strip_sql_comments(sqlf.read_text()), re.I):
+            if any(len(p_.split()) >= 2 for p_ in m_.group(2).split(",") if p_.strip() and ":=" not in p_):
+                typed_macros.append(m_.group(1))
+    cfgm = P.module("vtlengine.duckdb_transpiler.Config.config")
+    connects = [(f_, c_) for f_ in P.iter_functions() if f_.module is cfgm for c_ in walk_no_nested(f_.node)
+                if isinstance(c_, ast.Call) and src(c_.func) in ("duckdb.connect", "connect")]
+    rep.instance("R32.10", "typed-macro-parameters", nontrivial=True, sample={"macros with typed parameters": len(typed_macros), "examples": typed_macros[:4], "connect sites": len(connects)})
+    if typed_macros:
+        if not connects:
+            raise AnalysisError("Config.config: duckdb.connect(...) not found")
+        for f_, c_ in connects:
+            cfgkw = next((k.value for k in c_.keywords if k.arg == "config"), None)
+            keys = {k_.value for k_ in cfgkw.keys if isinstance(k_, ast.Constant)} if isinstance(cfgkw, ast.Dict) else set()
+            if "storage_compatibility_version" not in keys:
+                rep.add(Finding("R32.10", f"R32.10/connect/{f_.qualname}", f_.module.rel, c_.lineno, f_.qualname,
+                                f"`{src(c_)[:80]}` opens the session database without storage_compatibility_version in its config, while {len(typed_macros)} library macros declare typed "
+                                f"parameters (e.g. {typed_macros[0]}): with a file-backed session (VTL_USE_IN_MEMORY_DB=0) installing them fails with a raw BinderException - the version "
+                                f"of a database file is fixed when it is created, a later SET does not change it"))
     # ---- R32.9 a null Time_Period scalar result passes through the output formatting untouched, in every output format ----
     rep.rule("R32.9", "output formatting of a Time_Period SCALAR: a null value is left alone in every format (the handler is never built from None)")
     from sa.e6 import ClassVal as _CV9, Interp as _I9, Raised as _R9, Unmodelled as _U9
@@ -770,3 +792,9 @@ def mapper_partial_operations(P: Program, rep: Report, rule: str) -> None:
                                 f"{bad} inside the error mapper {f.name}: when the engine's message has another shape the mapper itself raises (IndexError / AttributeError / ValueError) "
                                 f"and that raw Python error replaces the VTL error the caller should get"))
     rep.instance(rule, "mapper-partial-operations", nontrivial=False, sample={"mappers": [f.qualname for f in mappers], "partial operations examined": n})
+
+
+
+def _strip_sql_comments(t: str) -> str:
+    t = re.sub(r"/\*.*?\*/", " ", t, flags=re.S)
+    return re.sub(r"--[^\n]*", " ", t)
